@@ -55,8 +55,9 @@ ALPHABET = [1, 2, 4, 8, 16, 32, 64, 128, 0, 7]
 ESRI = {1: (0, 1), 2: (1, 1), 4: (1, 0), 8: (1, -1), 16: (0, -1), 32: (-1, -1), 64: (-1, 0), 128: (-1, 1)}
 DIR2CODE = {v: k for k, v in ESRI.items()}
 SQRT2 = math.sqrt(2.0)
-BATCH_TIMEOUT = 240
-OP_TIMEOUT = 20
+BATCH_TIMEOUT = 90
+OP_TIMEOUT = 10
+MAX_BAD = 2
 
 
 # =============================================================================================
@@ -210,26 +211,45 @@ class Worker:
 
 
 def run_real(ctx, jobs):
-    """run every job in the worker; -> list (per job) of lists (per op) of result dicts"""
+    """run every job in the worker; -> list (per job) of lists (per op) of result dicts.
+    A batch that does not come back (or kills the worker) is re-run one operation at a time to name the
+    operation; after MAX_BAD hangs/crashes of one kind of operation the remaining ones of that kind are
+    skipped (`{"skipped": True}`), so that a kernel that loops costs a bounded amount of time."""
     w = Worker(ctx.native)
     results = []
+    bad_kinds = {}
+
+    def dropped(op):
+        return bad_kinds.get(op[0], 0) >= MAX_BAD
     try:
         B = 400
         for i in range(0, len(jobs), B):
             chunk = jobs[i:i + B]
-            res, bad = w.call(chunk, BATCH_TIMEOUT)
+            if bad_kinds:
+                send = [{"g": j["g"], "ops": [op for op in j["ops"] if not dropped(op)]} for j in chunk]
+            else:
+                send = chunk
+            res, bad = w.call(send, BATCH_TIMEOUT)
             if res is not None:
-                results += res
+                for job, rj in zip(chunk, res):
+                    it = iter(rj)
+                    results.append([{"skipped": True} if dropped(op) else next(it) for op in job["ops"]])
                 continue
             # isolate: one op at a time
             for job in chunk:
                 rj = []
                 for op in job["ops"]:
+                    if dropped(op):
+                        rj.append({"skipped": True})
+                        continue
                     r, bad1 = w.call([{"g": job["g"], "ops": [op]}], OP_TIMEOUT)
+                    if r is None:
+                        bad_kinds[op[0]] = bad_kinds.get(op[0], 0) + 1
                     rj.append(r[0][0] if r is not None else {bad1: True})
                 results.append(rj)
     finally:
         w.stop()
+    ctx.extra["ops_not_returning"] = dict(bad_kinds)
     return results
 
 
@@ -655,6 +675,9 @@ def body(ctx):
         for op, tag, r in zip(job["ops"], tags, res):
             kind = op[0]
             case = case_of(job, op)
+            if "skipped" in r:
+                ctx.count((kind, "skipped"), False, f"{kind}/skipped_after_hang")
+                continue
             if "hang" in r or "crash" in r:
                 what = "hang" if "hang" in r else "crash"
                 ctx.count((kind, gtok(job), str(op)), False, f"{kind}/{what}")
